@@ -142,6 +142,38 @@ def run(ctx):
                                    "status": st}, summary=f"remove_long_lines as identity filter ({back}, {n} bytes) does not reproduce the records")
             break
 
+    # 6. the tools' own buffer (1 MiB + one page, doubling): records longer than half of it, than all of it and than several
+    #    doublings, FOLLOWING short records (so that the long record does not start at the front of the buffer when the buffer
+    #    fills up), through every read(2) backing and as a regular file
+    import gzip as _gz, bz2 as _bz2
+    shapes = []
+    for pre in ([b"x"], [b"id 1", b"second header line"], [b"short %d" % i for i in range(400)], [b"y" * 500000]):
+        for ln in (540000, 700000, 1100000, 1572864, 3 * 1048576 + 7):
+            shapes.append((pre, ln))
+    rng.shuffle(shapes)
+    for pre, ln in shapes[:(8 if ctx.tier == "quick" else len(shapes))]:
+        longrec = bytes(48 + (i * 7 + i // 4093) % 43 for i in range(ln))
+        recs = pre + [longrec, b"after", longrec[:1000], b"end"]
+        data = b"".join(r + b"\n" for r in recs)
+        for back in ("pipe", "gz", "bz2", "file"):
+            if back == "pipe":
+                st, out, err = pvlib.run_tool([ctx.bin("remove_long_lines"), "999999999"], data, env=pvlib.san_env(), timeout=120)
+            else:
+                f = os.path.join(ctx.tmp, "long." + back)
+                open(f, "wb").write({"gz": _gz.compress(data, 1), "bz2": _bz2.compress(data, 1), "file": data}[back] if back != "file" else data)
+                st, out, err = pvlib.run_tool([ctx.bin("remove_long_lines"), "999999999"], env=pvlib.san_env(), stdin_file=f, timeout=120)
+            ctx.count("long-record-after-short", 1, [(len(pre), ln, back)])
+            if st != 0 or out != data:
+                ol = out.split(b"\n")
+                k = next((i for i, (a_, b_) in enumerate(zip(ol, recs)) if a_ != b_), min(len(ol), len(recs)))
+                pvlib.report_violation(ctx, f"reader-long:{len(pre)}:{ln}:{back}", {"argv": ["remove_long_lines", "999999999"], "backing": back, "status": st,
+                                       "generator": f"{len(pre)} short record(s) of {len(pre[0])} bytes, a record of {ln} bytes (bytes 48 + (i*7 + i//4093) % 43), 'after', its first 1000 bytes, 'end'",
+                                       "records_out": len(ol) - 1, "records_in": len(recs), "first_diff_record": k, "got_len": len(ol[k]) if k < len(ol) else None,
+                                       "want_len": len(recs[k]) if k < len(recs) else None},
+                                       summary=f"remove_long_lines as identity filter ({back}): {len(pre)} short record(s) then a {ln}-byte record: {len(ol) - 1} records out of {len(recs)}, "
+                                               f"record {k} has {len(ol[k]) if k < len(ol) else None} bytes instead of {len(recs[k]) if k < len(recs) else None} (status {st})")
+                return
+
 
 def replay(ctx, rp):
     impl = os.path.join(ctx.bdir, "harness", IMPL)
